@@ -26,11 +26,14 @@ def full(s, sep=".", lowercase=False, keep_zeros=False):
 
 
 def _trim(s, sep):
-    while sep and s.startswith(sep):
-        s = s[len(sep):]
-    while sep and s.endswith(sep):
-        s = s[:-len(sep)]
-    return s
+    """Removes whole separators and, for separators of several characters, the piece of one that a cut left behind
+    (separators are non-alphanumeric by the statement's premise, so everything outside the outermost letters/digits goes)."""
+    i, j = 0, len(s)
+    while i < j and s[i] not in _ALNUM:
+        i += 1
+    while j > i and s[j - 1] not in _ALNUM:
+        j -= 1
+    return s[i:j]
 
 
 def admissible(s, sep=".", lowercase=False, keep_zeros=False, max_length=None):
@@ -61,17 +64,17 @@ def sanitize(s, sep=".", lowercase=False, keep_zeros=False, max_length=None):
 def predicates(out, sep, keep_zeros, max_length):
     """Direct predicates from the statement; returns list of failed clause names."""
     bad = []
-    for c in out:
-        if c not in _ALNUM and c != sep:
-            bad.append("foreign-char")
-            break
     if sep:
-        if out.startswith(sep):
-            bad.append("leading-sep")
-        if out.endswith(sep):
-            bad.append("trailing-sep")
-        if sep + sep in out:
-            bad.append("doubled-sep")
+        # runs of ASCII letters/digits joined by single whole separators, nothing else (also no piece of a separator)
+        if out and not re.fullmatch(r"[A-Za-z0-9]+(?:%s[A-Za-z0-9]+)*" % re.escape(sep), out):
+            if out.startswith(sep):
+                bad.append("leading-sep")
+            elif out.endswith(sep):
+                bad.append("trailing-sep")
+            elif sep + sep in out:
+                bad.append("doubled-sep")
+            else:
+                bad.append("foreign-char")
         if not keep_zeros:
             for seg in out.split(sep):
                 if len(seg) > 1 and seg.isdigit() and seg.isascii() and seg[0] == "0":
@@ -100,6 +103,9 @@ def _selftest():
     assert sanitize("fé/日本-x") == "f.x"
     assert sanitize("\u0130\u212a", lowercase=True) == ""
     assert admissible("/feature", max_length=4) == {"feat", "fea"}
+    assert admissible("ab--cd", sep="--", max_length=3) == {"ab"} and predicates("ab-", "--", False, 3) == ["foreign-char"]
+    assert predicates("ab--cd", "--", False, None) == [] and predicates("ab----cd", "--", False, None) == ["doubled-sep"]
+    assert predicates("a.b", ".", False, None) == [] and predicates(".a", ".", False, None) == ["leading-sep"] and predicates("a b", ".", False, None) == ["foreign-char"]
     assert uint("007") == "7" and uint("0") == "0" and uint("1a") == "" and uint("") == "" and uint("٣") == ""
     return True
 
